@@ -380,7 +380,9 @@ pub fn propagate_comparison(
         match op {
             Operator::Eq => {
                 // TODO: Propagation is not possible until we support interval sets.
-                Ok(None)
+                //       Note that `None` would signal infeasibility, so return
+                //       the children as they are.
+                Ok(Some((left_child.clone(), right_child.clone())))
             }
             // NOT (left > right) <=> right >= left. Since the operands are
             // swapped when calling `satisfy_greater`, swap the results back:
@@ -396,8 +398,9 @@ pub fn propagate_comparison(
             ),
         }
     } else {
-        // Uncertainty cannot change any end-point of the intervals.
-        Ok(None)
+        // Uncertainty cannot change any end-point of the intervals. Note that
+        // `None` would signal infeasibility, so return the children as they are.
+        Ok(Some((left_child.clone(), right_child.clone())))
     }
 }
 
